@@ -186,13 +186,29 @@ def hostile_names(rng, sb_tokens: bool = True) -> List[str]:
 
 
 # every branch of ImageWriter.export_image: (kind, extension of the file it creates, raises ImportError afterwards?)
-IMG_KINDS = ["bmp8", "bmp8", "bmp1", "bmp24", "raw4", "raw16cmyk", "jpg", "jb2", "pil-flate-cmyk", "pil-jpx", "pil-jpg-cmyk"]
+IMG_KINDS = ["bmp8", "bmp8", "bmp1", "bmp24", "raw4", "raw16cmyk", "jpg", "jb2", "pil-flate-cmyk", "pil-jpx", "pil-jpg-cmyk",
+             "ill-bits-name", "ill-bits-slashname", "ill-w-name", "ill-h-str", "ill-bits-array", "ill-bits-real", "ill-w-neg",
+             "ill-h-big"]
+# ill-typed BitsPerComponent / Width / Height (the other document-controlled values that reach the file name):
+# value -> what "%d" makes of it (None: TypeError before any path is built)
+ILL_KINDS = {
+    "ill-bits-name": ({"BitsPerComponent": W.Name(b"X")}, None),
+    "ill-bits-slashname": ({"BitsPerComponent": W.Name(b"../../x")}, None),
+    "ill-w-name": ({"BitsPerComponent": 4, "Width": W.Name(b"X")}, None),
+    "ill-h-str": ({"BitsPerComponent": 4, "Height": b"../9"}, None),
+    "ill-bits-array": ({"BitsPerComponent": [4]}, None),
+    "ill-bits-real": ({"BitsPerComponent": 2.5}, (2, 1, 1)),
+    "ill-w-neg": ({"BitsPerComponent": 4, "Width": -3}, (4, -3, 1)),
+    "ill-h-big": ({"BitsPerComponent": 16, "Height": 10 ** 12}, (16, 1, 10 ** 12)),
+}
 IMG_EXT = {"bmp8": ".bmp", "bmp1": ".bmp", "bmp24": ".bmp", "raw4": ".4.1x1.img", "raw16cmyk": ".16.1x1.img", "jpg": ".jpg",
            "jb2": ".jb2", "pil-flate-cmyk": ".jpg", "pil-jpx": ".jp2", "pil-jpg-cmyk": ".jpg"}
 
 
 def image_object(kind: str, i: int, objs: Dict[int, Any]):
     base = {"Type": "XObject", "Subtype": "Image", "Width": 1, "Height": 1}
+    if kind in ILL_KINDS:
+        return W.Stream(dict(dict(base, ColorSpace="DeviceGray"), **ILL_KINDS[kind][0]), b"\x50")
     if kind == "bmp8":
         return W.Stream(dict(base, BitsPerComponent=8, ColorSpace="DeviceGray", Filter="FlateDecode"), IL.enc_flate(bytes([i + 1])))
     if kind == "bmp1":
@@ -251,6 +267,21 @@ def gen_case(rng) -> Dict[str, Any]:
         "fontfile": rng.random() < 0.3,
     }
     case["imgkinds"] = [rng.choice(IMG_KINDS) for _ in case["images"]]
+    if rng.random() < 0.25:
+        # names around the file-name length limit (255 bytes), the same name more than once, and old files under the
+        # names a clipped / numbered variant would get
+        nm = rng.choice("BQ") * rng.choice([240, 246, 247, 248, 249, 250, 251, 252, 253, 255, 256, 262])
+        case["images"] = [nm] * rng.choice([1, 2, 3]) + case["images"][:1]
+        rng.shuffle(case["images"])
+        case["imgkinds"] = [rng.choice(["bmp8", "jpg", "raw4", "bmp8"]) for _ in case["images"]]
+        pre = []
+        for ext in (".bmp", ".jpg", ".4.1x1.img"):
+            full = nm + ext
+            pre.append(full[:255 - len(ext)] + ext)
+            pre.append((nm + ".0" + ext)[:255 - len(ext)] + ext)
+        pre = [x for x in sorted(set(pre)) if len(x) <= 255]
+        case["pre"] = sorted(rng.sample(pre, rng.randint(0, len(pre))))
+    case["repeat"] = rng.choice([1, 1, 1, 2, 3])       # several documents exported into one output directory
     if flow == "registry" and rng.random() < 0.5:
         case["registry"] = rng.choice(["good", "x/../../decoy/evil", "../decoy/evil", "{ROOT}/decoy/evil", "x/../good"])
         case["ordering"] = "Z"
@@ -346,35 +377,56 @@ def run_impl(case: Dict[str, Any]):
             with open(inpath, "wb") as fp:
                 fp.write(pdf)
             before = sb.snapshot()
-        patch_stat()
-        del _EVENTS[:]
-        _ACTIVE[0] = True
-        try:
-            if entry == "to_fp":
-                extract_text_to_fp(io.BytesIO(pdf), out, output_type=case.get("output_type", "text"), codec="utf-8",
-                                   output_dir=sb.out)
-            elif entry == "extract_text":
-                from pdfminer.high_level import extract_text
-                extract_text(io.BytesIO(pdf))
-            elif entry == "extract_pages":
-                from pdfminer.high_level import extract_pages
-                for _ in extract_pages(io.BytesIO(pdf)):
-                    pass
-            else:
-                mod = load_pdf2txt()
-                fp2 = mod.extract_text(files=[inpath], outfile=respath, output_type=case.get("output_type", "text"),
-                                       output_dir=sb.out)
-                fp2.close()
-        except Exception as e:  # noqa: BLE001
-            exc = type(e).__name__
-        finally:
-            _ACTIVE[0] = False
-            unpatch_stat()
-        events = list(_EVENTS)
-        after = sb.snapshot()
+        events = []
+        snaps = [before]
+        excs = []
+        for rep in range(max(1, int(case.get("repeat", 1)))):
+            patch_stat()
+            del _EVENTS[:]
+            _ACTIVE[0] = True
+            try:
+                if entry == "to_fp":
+                    extract_text_to_fp(io.BytesIO(pdf), io.BytesIO(), output_type=case.get("output_type", "text"),
+                                       codec="utf-8", output_dir=sb.out)
+                elif entry == "extract_text":
+                    from pdfminer.high_level import extract_text
+                    extract_text(io.BytesIO(pdf))
+                elif entry == "extract_pages":
+                    from pdfminer.high_level import extract_pages
+                    for _ in extract_pages(io.BytesIO(pdf)):
+                        pass
+                else:
+                    mod = load_pdf2txt()
+                    fp2 = mod.extract_text(files=[inpath], outfile=respath, output_type=case.get("output_type", "text"),
+                                           output_dir=sb.out)
+                    fp2.close()
+                excs.append(None)
+            except Exception as e:  # noqa: BLE001
+                excs.append(type(e).__name__)
+            finally:
+                _ACTIVE[0] = False
+                unpatch_stat()
+            events += list(_EVENTS)
+            snaps.append(sb.snapshot())
+        exc = next((e for e in excs if e), None)
+        after = snaps[-1]
         created = sorted(p for p in after if p not in before)
-        changed = sorted(p for p in before if p in after and after[p] != before[p])
-        removed = sorted(p for p in before if p not in after)
+        changed, removed = [], []
+        for s0, s1 in zip(snaps, snaps[1:]):
+            # every file that exists when a run starts - old files AND files exported by an earlier document - must
+            # be unchanged when it ends
+            changed += [p for p in s0 if p in s1 and s1[p] != s0[p] and p != respath]
+            removed += [p for p in s0 if p not in s1]
+        changed, removed = sorted(set(changed)), sorted(set(removed))
+        # a path opened for writing twice (within one run or across runs) is an overwrite as well
+        wcount: Dict[str, int] = {}
+        for ev, args in events:
+            if ev == "open" and isinstance(args[0], str) and isinstance(args[1], str) and any(c in args[1] for c in "wax+"):
+                q = os.path.normpath(args[0])
+                if q != respath:
+                    wcount[q] = wcount.get(q, 0) + 1
+        # (the audit event precedes the system call: an open the OS refuses - name too long - creates nothing)
+        rewritten = sorted(p for p, n in wcount.items() if n > 1 and p in after)
         opens = []
         other = []
         stats = []
@@ -390,7 +442,7 @@ def run_impl(case: Dict[str, Any]):
                     opens.append((os.path.realpath(p) if not os.path.isabs(p) else os.path.normpath(p), args[1]))
             else:
                 other.append((ev, args[:2]))
-        return {"stats": stats, "inpath": inpath, "respath": respath, "opens": opens, "other": other, "created": created, "changed": changed, "removed": removed, "exc": exc,
+        return {"rewritten": rewritten, "excs": excs, "stats": stats, "inpath": inpath, "respath": respath, "opens": opens, "other": other, "created": created, "changed": changed, "removed": removed, "exc": exc,
                 "root": sb.root, "out": sb.out, "rsrc": sb.rsrc, "after": after, "pdf_len": len(pdf)}
     finally:
         if old_env is None:
@@ -459,6 +511,9 @@ def judge(case: Dict[str, Any], r: Dict[str, Any]) -> Optional[Tuple[str, Any, A
         if os.path.dirname(p.rstrip("/")) != out or p.endswith("/"):
             return ("a file was created outside output_dir", "only files directly in output_dir", p.replace(root, "{ROOT}"),
                     dict(tags, kind="create-outside"))
+    for p in r["rewritten"]:
+        return ("a file written earlier in the same output directory was opened for writing again",
+                "every export creates a new file", p.replace(root, "{ROOT}")[-80:], dict(tags, kind="overwrite"))
     for p in r["changed"] + r["removed"]:
         return ("an existing file was overwritten or removed", "existing files untouched", p.replace(root, "{ROOT}"),
                 dict(tags, kind="overwrite"))
@@ -539,7 +594,7 @@ def check_case(ctx: C.Ctx, case: Dict[str, Any], lines, impl, inputs, shrink: bo
     cdir = cmap_dir()
     dirs = [r["rsrc"], cdir]
     exp_opens: List[str] = []
-    loads = predict_loads(case, root)
+    loads = predict_loads(case, root) * max(1, int(case.get("repeat", 1)))     # every document loads its CMaps again
     probe_lines = []
     for n in loads:
         probe_lines.append("cmap %s,%s %s" % (hexs(dirs[0]), hexs(dirs[1]), hexs(n)))
@@ -554,10 +609,21 @@ def check_case(ctx: C.Ctx, case: Dict[str, Any], lines, impl, inputs, shrink: bo
     kinds = case.get("imgkinds") or ["bmp8"] * len(case["images"])
     first_kind: Dict[str, str] = {}
     if case.get("entry", "to_fp") in ("to_fp", "pdf2txt"):
-        for i, nm in enumerate(case["images"]):
-            kind = first_kind.setdefault(nm, kinds[i] if i < len(kinds) else "bmp8")   # a repeated name reuses the object
-            created_model_lines.append((fill_root(nm, root), IMG_EXT[kind], kind.startswith("pil-")))
-            ctx.branch("imgkind:" + kind)
+        for rep in range(max(1, int(case.get("repeat", 1)))):
+            for i, nm in enumerate(case["images"]):
+                kind = first_kind.setdefault(nm, kinds[i] if i < len(kinds) else "bmp8")   # a repeated name reuses the object
+                if kind in ILL_KINDS:
+                    vals = ILL_KINDS[kind][1]
+                    # (name, extension | None = "%d" raises TypeError: nothing created, the run ends, run id)
+                    ext = None if vals is None else ".%d.%dx%d.img" % vals
+                    created_model_lines.append((fill_root(nm, root), ext, False, rep, vals))
+                else:
+                    created_model_lines.append((fill_root(nm, root), IMG_EXT[kind], kind.startswith("pil-"), rep, None))
+                if rep == 0:
+                    ctx.branch("imgkind:" + kind)
+    ctx.branch("repeat:%d" % case.get("repeat", 1))
+    if any(len(n) >= 240 for n in case["images"]):
+        ctx.branch("name:at-length-limit")
     ctx.branch("entry:" + case.get("entry", "to_fp"))
     lines.append(("images", created_model_lines, existing, r["out"]))
     impl.append(sorted(os.path.relpath(p, root) for p in r["created"] if not p.endswith("/") and p != r["respath"]))
@@ -621,42 +687,55 @@ def resolve_ties(ctx: C.Ctx, lines, impl, inputs) -> None:
     for idx, item in enumerate(lines):
         if item[0] == "images":
             _, specs, existing, outdir = item
-            states.append({"idx": idx, "specs": list(specs), "cur": list(existing), "outdir": outdir, "created": [],
-                           "ok": True, "done": False})
-    rnd = 0
+            states.append({"idx": idx, "queue": list(specs), "cur": list(existing), "outdir": outdir, "created": [],
+                           "ok": True})
+    rawext_req: List[str] = []
+    rawext_exp: List[str] = []
     while True:
         batch, owners = [], []
         for st in states:
-            if st["done"] or rnd >= len(st["specs"]):
-                st["done"] = True
+            while st["queue"] and st["queue"][0][1] is None:
+                # "%d" of a name / string / array raises TypeError before a path exists: the rest of this run is skipped
+                run = st["queue"][0][3]
+                st["queue"] = [q for q in st["queue"] if q[3] != run]
+            if not st["queue"]:
                 continue
-            nm, ext, aborts = st["specs"][rnd]
+            nm, ext, aborts, run, vals = st["queue"][0]
+            if vals is not None:
+                rawext_req.append("rawext %d %d %d" % vals)
+                rawext_exp.append(hexs(ext))
             batch.append("image %s %s %s %s" % (hexs(st["outdir"]), hexs(nm), hexs(ext),
                                                 ",".join(hexs(x) for x in st["cur"]) or "-"))
             owners.append(st)
         if not batch:
             break
         for st, reply in zip(owners, ctx.driver.ask(batch)):
+            nm, ext, aborts, run, vals = st["queue"].pop(0)
             if reply in ("none", "bad-op"):
                 st["ok"] = False
-                st["done"] = True
+                st["queue"] = []
                 continue
             a, b = reply.split(" ")
             name = bytes.fromhex(a).decode("utf-8", "surrogateescape") if a != "-" else ""
             path = bytes.fromhex(b).decode("utf-8", "surrogateescape")
             if len(name.encode("utf-8", "surrogateescape")) > 255:
-                st["done"] = True      # the OS refuses the name: pdfminer raises, nothing more is created
+                # the OS refuses the name: pdfminer raises OSError, nothing more is created in this run
+                st["queue"] = [q for q in st["queue"] if q[3] != run]
                 continue
             st["cur"].append(name)
             st["created"].append(os.path.relpath(os.path.normpath(path), os.path.dirname(st["outdir"])))
-            if st["specs"][rnd][2]:
-                st["done"] = True      # the file exists, then Pillow is missing: ImportError ends the run
-        rnd += 1
+            if aborts:
+                # the file exists, then Pillow is missing: ImportError ends this run
+                st["queue"] = [q for q in st["queue"] if q[3] != run]
     for st in states:
         idx = st["idx"]
-        ctx.branch("tie:images-created=%d" % len(st["created"]))
+        ctx.branch("tie:images-created=%d" % min(len(st["created"]), 6))
         if st["ok"] and sorted(st["created"]) != impl[idx]:
-            ctx.disagree("image-paths", inputs[idx][1], impl[idx], sorted(st["created"]))
+            ctx.disagree("image-paths", inputs[idx][1], [x[-60:] for x in impl[idx]], [x[-60:] for x in sorted(st["created"])])
+    if rawext_req:
+        for req, exp, got in zip(rawext_req, rawext_exp, ctx.driver.ask(rawext_req)):
+            if exp != got:
+                ctx.disagree("rawext", req, exp, got)
 
 
 def physically_exists(p: str, after: Dict[str, Any]) -> bool:
@@ -701,18 +780,32 @@ def shrink_case(case: Dict[str, Any], kind: Optional[str]) -> Dict[str, Any]:
         t["usecmap"] = None
         if fails(t):
             cur = t
-    imgs = list(cur["images"])
-    if len(imgs) > 1:
+    kinds = list(cur.get("imgkinds") or ["bmp8"] * len(cur["images"]))
+    kinds += ["bmp8"] * (len(cur["images"]) - len(kinds))
+    pairs = list(zip(cur["images"], kinds))
+    if len(pairs) > 1:
         def still(sub):
             t = dict(cur)
-            t["images"] = sub
+            t["images"] = [a for a, _ in sub]
+            t["imgkinds"] = [b for _, b in sub]
             return fails(t)
-        cur["images"] = C.ddmin(imgs, still, 30)
-    elif imgs:
+        pairs = C.ddmin(pairs, still, 30)
+        cur["images"] = [a for a, _ in pairs]
+        cur["imgkinds"] = [b for _, b in pairs]
+    elif pairs:
         t = dict(cur)
-        t["images"] = []
+        t["images"], t["imgkinds"] = [], []
         if fails(t):
             cur = t
+    for key, v in (("repeat", 1), ("fontfile", False), ("entry", "to_fp")):
+        if cur.get(key, v) != v:
+            t = dict(cur)
+            t[key] = v
+            try:
+                if fails(t):
+                    cur = t
+            except Exception:  # noqa: BLE001
+                pass
     return cur
 
 
@@ -789,6 +882,20 @@ def run(ctx: C.Ctx) -> None:
         case = {"flow": "image", "enc": "Identity-H", "usecmap": None, "registry": "Adobe", "ordering": "Identity",
                 "basefont": "Helv", "images": [nm, nm], "pre": ["Im0.bmp", "keep.bmp"], "output_type": "text"}
         check_case(ctx, case, lines, impl, inputs)
+    # every hostile image name with every ill-typed BitsPerComponent / Width / Height (values that reach the file name
+    # after the image name has been sanitised), and every image name at the file-name length limit exported twice
+    base = {"flow": "image", "enc": "Identity-H", "usecmap": None, "registry": "Adobe", "ordering": "Identity",
+            "basefont": "Helv", "output_type": "text", "entry": "to_fp"}
+    for nm in IMAGE_NAMES:
+        for kind in ILL_KINDS:
+            check_case(ctx, dict(base, images=[nm], imgkinds=[kind], pre=["keep.bmp"]), lines, impl, inputs)
+    for n in (247, 249, 250, 251, 252, 253, 255, 256):
+        for kind in ("bmp8", "jpg", "raw4"):
+            nm = "L" * n
+            ext = IMG_EXT[kind]
+            pre = [x for x in {(nm + ext)[:255 - len(ext)] + ext, (nm + ".0" + ext)[:255 - len(ext)] + ext} if len(x) <= 255]
+            check_case(ctx, dict(base, images=[nm, nm], imgkinds=[kind, kind], pre=sorted(pre) if n % 2 else [], repeat=2),
+                       lines, impl, inputs)
     for i in range(ctx.n(1200, 20000)):
         if not ctx.time_left():
             break
